@@ -39,6 +39,24 @@ CHECKS = {
              "theorem about the emulator); metadata completeness is checked on the files, not proved",
         technique="Lean 4 invariant proof (clock order + marker balance) over the buffer model + differential run + ovniemu acceptance",
         design="DESIGN.md §5 C02"),
+    "C08": dict(
+        text=("Theorems (Props/C08.lean, 21) over the transcription of chan_push/chan_pop/chan_flush: a history of enter/leave "
+              "events on a channel is accepted by the channel machinery IFF it is properly nested (leave matches the "
+              "innermost open region, depth <= limit, and without ALLOW_DUP no re-entry of the innermost region) "
+              "(nesting_accept_iff, unbounded length, any depth limit); hence every properly nested non-re-entering history "
+              "is accepted on every channel (nonreentering_accepted); the row shows the innermost open region "
+              "(view_is_top); lint rejects open regions and finish accepts iff all threads dead and nothing open "
+              "(lint_open_rejected, finish_ok_iff). Whole-table `decide` facts over the tables REGENERATED from /repo each run: "
+              "every enter has a leave with the same channel and value, distinct regions of a channel have distinct values, "
+              "every value has a PCF label, actions/channel types are consistent, and the tables still equal the committed "
+              "documented mapping event->(channel, action, value, label) (table_matches_documented). Tie: regenerated tables; "
+              "e2e: per model random nested words with single mismatches, wrong thread states, open regions at the end and "
+              "depths 511..513, real ovniemu -l vs the Lean reference emulator (verdict, failing event, every model row) and "
+              "vs an independent Python oracle that recomputes every row from the history with the documented mapping."),
+        note=TB + "; thread-state preconditions and the per-model dispatch are hand-modelled in Emu/Core.lean and tied by the "
+             "e2e correspondence; the kernel model's two events are a hand-written table",
+        technique="Lean 4 iff theorem over the channel stack model + whole-table decide over regenerated tables + differential ovniemu runs",
+        design="DESIGN.md §5 C08"),
     "C14": dict(
         text=("Theorems (Props/C14.lean, 22): compatibility iff same major and minor<=; well-formed a.b.c[-suffix] "
               "parses to (a,b,c); NULL, >=64 chars, missing field, non-numeric field, negative field are refused; "
